@@ -65,7 +65,7 @@
 __attribute__((used, visibility("default"), no_sanitize("address", "undefined")))
 const char *__asan_default_options(void) {
   return "abort_on_error=1:detect_leaks=0:allocator_may_return_null=1:"
-         "max_allocation_size_mb=64:handle_abort=1";
+         "max_allocation_size_mb=64:handle_abort=1:quarantine_size_mb=16:malloc_context_size=12";
 }
 
 __attribute__((used, visibility("default"), no_sanitize("address", "undefined")))
@@ -138,9 +138,21 @@ static int g_entered;            /* set by target code when the decoder proper w
 static FILE *g_devnull;
 
 #define ENTER() (g_entered = 1)
-#define PHASE(...) snprintf(shm->phase, sizeof(shm->phase), __VA_ARGS__)
+static void phase_tick(void);
+#define PHASE(...) do { if (g_debug) phase_tick(); snprintf(shm->phase, sizeof(shm->phase), __VA_ARGS__); } while (0)
 
 static volatile uint64_t g_sink;
+
+/* VERIF_FZ_DEBUG: time spent per phase, appended to /tmp/fuzzmon-phases.txt */
+static void phase_tick(void) {
+  static double last = 0;
+  double now = vh_now();
+  if (last > 0 && shm->phase[0]) {
+    FILE *f = fopen("/tmp/fuzzmon-phases.txt", "a");
+    if (f) { fprintf(f, "%.2f %.20s\n", (now - last) * 1e3, shm->phase); fclose(f); }
+  }
+  last = now;
+}
 
 /* Read every byte of a slice the library handed back: under ASan a slice that
    leaves its allocation is reported at its first poisoned byte. */
@@ -1673,6 +1685,8 @@ static void gen_table_image(case_t *c, vrng_t *r) {
 
 static void gen_log_image(case_t *c, vrng_t *r, int manifest) {
   const rlog_t *L = &g_log[(manifest ? 2 : 0) + rU(r, 2)], *O = &g_log[rU(r, (uint32_t)g_nlog)];
+  if (L == &g_log[1] && rU(r, 6)) L = &g_log[0];                   /* the 40 KB WAL is used in ~8% of WAL cases */
+  if (O == &g_log[1] && rU(r, 6)) O = &g_log[0];
   if (c->cls == CL_RANDOM) { brand(&c->in, r, rand_len(r)); set_desc(c->desc, "log-random", "raw"); }
   else if (c->cls == CL_VALID) { bset(&c->in, L->framed.data, L->framed.len); set_desc(c->desc, "log-valid", "none"); }
   else c->cls = mut_log(L, O, NULL, r, &c->in, c->desc);
@@ -1815,6 +1829,8 @@ static void gen_case(case_t *c, vrng_t *r) {
     }
     case T_BATCH: {
       const rc_buf_t *b = &g_batch[rU(r, (uint32_t)g_nbatch)], *u = &g_batch[rU(r, (uint32_t)g_nbatch)];
+      if (b->len > 20000 && rU(r, 8)) b = &g_batch[rU(r, 3)];      /* keep most cases small */
+      if (u->len > 20000 && rU(r, 8)) u = &g_batch[rU(r, 3)];
       if (c->cls == CL_RANDOM) {
         brand(&c->in, r, rand_len(r) % 3000);
         if (c->in.len >= 13 && rP(r, 600)) { rc_put_fixed32(c->in.data + 8, 1 + rU(r, 3)); c->in.data[12] = (uint8_t)rU(r, 2); set_desc(c->desc, "batch-random", "plausible-head"); }
@@ -2092,10 +2108,10 @@ static void run_snappy(const case_t *c, vrng_t *r) {
   size_t n = 0;
   (void)r;
   if (snappy_decode_size(&n, p, c->in.len)) {
-    /* a <= 64 KiB input cannot produce more than 64 KiB * 64/3 < 1.5 MiB of output, so a
-       correct decoder never writes past min(n, 1.5 MiB); the full-size allocation of the
-       real caller is exercised through ldb_read_block */
-    size_t cap = n < (3u << 19) ? n : (3u << 19);
+    /* every input byte yields at most 64/3 output bytes (a 3-byte copy-2 element emits <= 64),
+       so a correct decoder never writes past min(n, 22 * len + 64); the full-size allocation
+       of the real caller is exercised through ldb_read_block (readblock / table / db) */
+    size_t bound = c->in.len * 22 + 64, cap = n < bound ? n : bound;
     uint8_t *z = malloc(cap ? cap : 1);
     if (z != NULL) {
       if (snappy_decode(z, p, c->in.len)) { ENTER(); shm->x[X_SNAPPY_OK]++; touch(z, cap); }
@@ -2751,7 +2767,7 @@ static void run_db_case(int64_t idx, vrng_t *r) {
     if (c.f[i].absent) continue;
     snprintf(path, sizeof(path), "%s/%s", dir, c.f[i].name);
     write_file(path, c.f[i].bytes.data, c.f[i].bytes.len);
-    if (c.f[i].own && shm->in_len == 0) { shm->in_len = (uint32_t)c.f[i].bytes.len; memcpy(shm->in, c.f[i].bytes.data, c.f[i].bytes.len > MAXIN ? MAXIN : c.f[i].bytes.len); }
+    if (c.f[i].own && shm->in_len == 0 && c.f[i].bytes.len > 0) { shm->in_len = (uint32_t)c.f[i].bytes.len; memcpy(shm->in, c.f[i].bytes.data, c.f[i].bytes.len > MAXIN ? MAXIN : c.f[i].bytes.len); }
   }
   shm->cases[T_DB]++; shm->tc[T_DB][c.cls]++;
   if (dump_first) db_dump_all(dir);
@@ -2790,9 +2806,19 @@ static void run_db_case(int64_t idx, vrng_t *r) {
                                     "leveldb.num-files-at-level7", "leveldb.nonsense"};
       for (i = 0; i < 7; i++) if (ldb_property(db, props[i], &prop)) { touch(prop, strlen(prop)); ldb_free(prop); }
     }
-    PHASE("ldb_compact");
-    ldb_compact(db, NULL, NULL);
-    shm->x[X_DB_COMPACTS]++;
+    {   /* whole-range compaction is by far the most expensive step: half of the cases do it,
+           a third compact a sub-range, the rest rely on the compactions open/recovery schedule */
+      uint32_t w = rU(r, 100);
+      if (w < 50) { PHASE("ldb_compact all"); ldb_compact(db, NULL, NULL); shm->x[X_DB_COMPACTS]++; }
+      else if (w < 83) {
+        ldb_slice_t b, e;
+        dbkey(k1, (int)rU(r, DB_NKEYS / 2)); dbkey(k2, DB_NKEYS / 2 + (int)rU(r, DB_NKEYS / 2));
+        b = ldb_slice((uint8_t *)k1, strlen(k1)); e = ldb_slice((uint8_t *)k2, strlen(k2));
+        PHASE("ldb_compact range");
+        ldb_compact(db, rU(r, 4) ? &b : NULL, rU(r, 4) ? &e : NULL);
+        shm->x[X_DB_COMPACTS]++;
+      }
+    }
     if (rP(r, 300)) db_scan(db, r, verify);
     PHASE("ldb_close");
     ldb_close(db);
